@@ -1437,13 +1437,23 @@ func (e *kvElection) ValidateToken(ctx context.Context) (bool, error) {
 // Returns true if valid, false if invalid (and demoted).
 // Use this for operations that must not proceed with an invalid token.
 func (e *kvElection) ValidateTokenOrDemote(ctx context.Context) bool {
-	isValid, err := e.ValidateToken(ctx)
-	e.verifYield("validateordemote.verdict")
-	if err != nil || !isValid {
-		if e.IsLeader() {
-			e.handleValidationFailure(err)
+	for {
+		if !e.IsLeader() {
+			return false
 		}
-		return false
+		// The verdict is about the term that leads now, identified by its
+		// token: a caller that was held up while that term ended must not
+		// demote the term the instance may be leading by then (a call made
+		// just before a promotion used to demote the new leader).
+		token := e.Token()
+		isValid, err := e.validateToken(ctx)
+		e.verifYield("validateordemote.verdict")
+		if err == nil && isValid {
+			return true
+		}
+		if e.handleValidationFailureOfToken(token, err) || !e.IsLeader() {
+			return false
+		}
+		// Another term began during the call: judge that one.
 	}
-	return true
 }
